@@ -10,7 +10,10 @@ from sa.flow import ReachingDefs
 from sa.load import AnalysisError, Func, Repo, body_nodes, unparse
 from sa.report import Check, Site
 
+from sa.pathsum import PathSum, Summary
+
 from .c03 import argmap, calls, expect
+from .util import args_of, eq_branches
 
 
 def run(repo: Repo, chk: Check) -> None:
@@ -49,126 +52,128 @@ def run(repo: Repo, chk: Check) -> None:
     chk.scope_decides, chk.scope_not, chk.trusted = scratch_scope
 
 
+def _oid_branches(f: Func, summ: Summary) -> t.Dict[str, t.List[PathSum]]:
+    """Returning paths of an algorithm-dispatch function, keyed by the OID its first parameter is compared equal to."""
+    return eq_branches(summ, summ.rename.get(f.params[0], f.params[0]))
+
+
 def algorithm_tables(repo: Repo, chk: Check) -> None:
-    pairs = [
-        ("_crypto.cek_encrypt", "_crypto.cek_decrypt", "keywrap.aes_key_wrap", "keywrap.aes_key_unwrap", "AlgorithmOID.AES256_WRAP"),
-    ]
-    for enc_q, dec_q, pe, pd, oid in pairs:
+    OID = "AlgorithmOID.AES256_WRAP"
+    for enc_q, dec_q, pe, pd in [("_crypto.cek_encrypt", "_crypto.cek_decrypt", "aes_key_wrap", "aes_key_unwrap")]:
         fe, fd = repo.func(enc_q), repo.func(dec_q)
         chk.analysed(fe, fd)
         for f, prim in ((fe, pe), (fd, pd)):
-            cs = calls(f, prim)
-            ok = len(cs) == 1 and [unparse(a) for a in cs[0].args] == [f.params[2], f.params[3]]
-            chk.ob("O1", Site.of(f, cs[0] if cs else None, None if cs else prim), ok, f"{prim}(kek, value)" if ok else f"{f.name} does not call {prim}(kek, value)")
-            tests = [n for n in body_nodes(f.node) if isinstance(n, ast.If) and unparse(n.test) == f"{f.params[0]} == {oid}"]
-            chk.ob("O1", Site.of(f, tests[0] if tests else None, None if tests else "OID branch"), len(tests) == 1, f"branch for {oid}")
-            rets = [n for n in body_nodes(f.node) if isinstance(n, ast.Return)]
-            chk.ob("O1", Site.of(f, rets[0] if rets else None, None if rets else "return"), bool(cs) and len(rets) == 1 and rets[0].value is cs[0], "returns the primitive's result")
+            summ = Summary(f, ["algorithm", "parameters", "kek", "value"])
+            br = _oid_branches(f, summ)
+            paths = br.get(OID, [])
+            chk.ob("O1", Site.of(f, construct=f"{f.name}: branch for {OID}"), len(paths) >= 1 and set(br) == {OID}, f"every returning path has tested algorithm == {OID}" if set(br) == {OID} else f"returning paths are guarded by {sorted(br)}")
+            for ps in paths:
+                cs = ps.calls(prim)
+                ok = len(cs) == 1 and [ps.text(a) for a in t.cast(ast.Call, cs[0].tree).args] == ["kek", "value"] and not t.cast(ast.Call, cs[0].tree).keywords
+                chk.ob("O1", Site.of(f, cs[0].node if cs else None, None if cs else prim), ok, f"{prim}(kek, value)" if ok else f"{f.name} does not call {prim}(kek, value) on the {OID} path")
+                okr = bool(cs) and ps.key(ps.value) == ps.key(cs[0].tree)
+                chk.ob("O1", Site.of(f, ps.exit_node, None if ps.exit_node is not None else "return"), okr, "returns the primitive's result")
+    GCM = "AlgorithmOID.AES256_GCM"
     fe, fd = repo.func("_crypto.content_encrypt"), repo.func("_crypto.content_decrypt")
     chk.analysed(fe, fd)
     sigs = []
     for f, meth in ((fe, "encrypt"), (fd, "decrypt")):
-        rd = ReachingDefs(f)
-        cs = [n for n in body_nodes(f.node) if isinstance(n, ast.Call) and isinstance(n.func, ast.Attribute) and n.func.attr == meth]
-        if len(cs) != 1:
-            chk.ob("O1", Site.of(f, construct=f"cipher.{meth}"), False, f"{f.name} has {len(cs)} {meth} calls")
-            continue
-        c = cs[0]
-        ciph = rd.single_def(unparse(c.func.value), c)  # type: ignore[attr-defined]
-        iv = rd.single_def(unparse(c.args[0]), c) if isinstance(c.args[0], ast.Name) else None
-        rdr = rd.single_def("reader", c)
-        sig = (
-            unparse(ciph.value).replace(f.params[2], "<cek>") if ciph is not None and ciph.value is not None else None,
-            unparse(iv.value) if iv is not None and iv.value is not None else unparse(c.args[0]),
-            unparse(rdr.value).replace(f.params[1], "<parameters>") if rdr is not None and rdr.value is not None else None,
-            unparse(c.args[1]).replace(f.params[3], "<value>"),
-            unparse(c.args[2]) if len(c.args) > 2 else None,
-        )
-        sigs.append(sig)
-        tests = [n for n in body_nodes(f.node) if isinstance(n, ast.If) and unparse(n.test) == f"{f.params[0]} == AlgorithmOID.AES256_GCM"]
-        chk.ob("O1", Site.of(f, tests[0] if tests else None, None if tests else "OID branch"), len(tests) == 1, "branch for AES256-GCM")
-        rets = [n for n in body_nodes(f.node) if isinstance(n, ast.Return)]
-        chk.ob("O1", Site.of(f, rets[0] if rets else None, None if rets else "return"), len(rets) == 1 and rets[0].value is c, "returns the AEAD result")
-    ok = len(sigs) == 2 and sigs[0] == sigs[1] and sigs[0][0] == "AESGCM(<cek>)" and sigs[0][4] == "None"
-    chk.ob("O1", Site.of(fd, construct="AES-GCM key / nonce / AAD provenance"), ok, f"both sides: {sigs[0] if sigs else ''}" if ok else f"encrypt and decrypt feed AES-GCM differently: {sigs}")
+        summ = Summary(f, ["algorithm", "parameters", "cek", "value"])
+        br = _oid_branches(f, summ)
+        chk.ob("O1", Site.of(f, construct=f"{f.name}: branch for {GCM}"), set(br) == {GCM}, "branch for AES256-GCM" if set(br) == {GCM} else f"returning paths are guarded by {sorted(br)}")
+        for ps in br.get(GCM, []):
+            cs = ps.calls(meth)
+            if len(cs) != 1:
+                chk.ob("O1", Site.of(f, construct=f"cipher.{meth}"), False, f"{f.name} has {len(cs)} {meth} calls on the {GCM} path")
+                continue
+            c = t.cast(ast.Call, cs[0].tree)
+            sig = (ps.text(t.cast(ast.Attribute, c.func).value), tuple(ps.text(a) for a in c.args), tuple((k.arg, ps.text(k.value)) for k in c.keywords))
+            sigs.append(sig)
+            chk.ob("O1", Site.of(f, ps.exit_node, None if ps.exit_node is not None else "return"), ps.key(ps.value) == ps.key(c), "returns the AEAD result")
+    want = ("AESGCM(cek)", ("ASN1Reader(parameters).read_sequence().read_octet_string()", "value", "None"), ())
+    ok = len(sigs) >= 2 and all(s == want for s in sigs)
+    chk.ob("O1", Site.of(fd, construct="AES-GCM key / nonce / AAD provenance"), ok, f"both sides: {want}" if ok else f"encrypt and decrypt feed AES-GCM differently from AESGCM(cek).op(nonce of the parameters, value, None): {sigs}")
     # every OID the encrypt side emits has a decrypt branch
     eb = repo.func("_client._encrypt_blob")
-    emitted = {unparse(n.value) for n in body_nodes(eb.node) if isinstance(n, ast.Assign) and unparse(n.targets[0]) in ("enc_cek_algorithm", "enc_content_algorithm")}
+    emitted = set()
+    for ps in Summary(eb).returning():
+        for c in ps.calls("DPAPINGBlob"):
+            kws = args_of(repo, eb, t.cast(ast.Call, c.tree))
+            emitted |= {ps.text(kws.get("enc_cek_algorithm")), ps.text(kws.get("enc_content_algorithm"))}
     have = set()
     for q in ("_crypto.cek_decrypt", "_crypto.content_decrypt"):
         f = repo.func(q)
-        have |= {unparse(n.test.comparators[0]) for n in body_nodes(f.node) if isinstance(n, ast.If) and isinstance(n.test, ast.Compare)}
+        have |= set(_oid_branches(f, Summary(f))) - {"<no single test>"}
     chk.ob("O1", Site.of(eb, construct="emitted algorithm OIDs have decrypt branches"), emitted <= have and len(emitted) == 2, f"emitted {sorted(emitted)}" if emitted <= have else f"_encrypt_blob emits {sorted(emitted - have)} which no decrypt branch handles")
 
 
 def parameter_identity(repo: Repo, chk: Check) -> None:
     f = repo.func("_client._encrypt_blob")
     chk.analysed(f)
-    rd = ReachingDefs(f)
-    ce, ke, gen = calls(f, "content_encrypt"), calls(f, "cek_encrypt"), calls(f, "cek_generate")
-    bc = calls(f, "DPAPINGBlob")
-    if not (len(ce) == len(ke) == len(gen) == len(bc) == 1):
-        raise AnalysisError("_encrypt_blob: call sites changed")
-    kws = {k.arg: k.value for k in bc[0].keywords if k.arg}
-
-    def same(a: ast.expr, at_a: ast.AST, b: t.Optional[ast.expr], at_b: ast.AST) -> bool:
-        if b is None or not isinstance(a, ast.Name) or not isinstance(b, ast.Name) or a.id != b.id:
-            return False
-        return {id(d) for d in rd.reaching(a.id, at_a)} == {id(d) for d in rd.reaching(b.id, at_b)} and len(rd.reaching(a.id, at_a)) == 1
-
-    for what, used, stored in (
-        ("content algorithm", ce[0].args[0], kws.get("enc_content_algorithm")),
-        ("content parameters", ce[0].args[1], kws.get("enc_content_parameters")),
-        ("CEK algorithm", ke[0].args[0], kws.get("enc_cek_algorithm")),
-        ("CEK parameters", ke[0].args[1], kws.get("enc_cek_parameters")),
-    ):
-        ok = same(used, ce[0] if "content" in what else ke[0], stored, bc[0])
-        chk.ob("O2", Site.of(f, bc[0], f"DPAPINGBlob stores the {what} used"), ok, f"the {what} stored in the blob is the definition used to encrypt" if ok else f"the {what} used for encryption ({unparse(used)}) is not what the blob stores ({unparse(stored) if stored is not None else 'missing'})")
-    # results stored
-    for what, call, field in (("ciphertext", ce[0], "enc_content"), ("wrapped CEK", ke[0], "enc_cek")):
-        v = kws.get(field)
-        d = rd.single_def(v.id, bc[0]) if isinstance(v, ast.Name) else None
-        ok = d is not None and d.value is call
-        chk.ob("O2", Site.of(f, bc[0], f"DPAPINGBlob stores the {what}"), ok, f"{field} = result of the encryption" if ok else f"{field} is not the result of the corresponding encryption call")
-    # cek_generate(alg) with the same algorithm as cek_encrypt
-    ok = same(gen[0].args[0], gen[0], ke[0].args[0], ke[0])
-    chk.ob("O2", Site.of(f, gen[0]), ok, "CEK generated for the algorithm that wraps it")
-    # key, nonce: from cek_generate's pair
-    cek = ce[0].args[2]
-    d = rd.single_def(cek.id, ce[0]) if isinstance(cek, ast.Name) else None
-    ok = d is not None and d.value is gen[0] and d.index == 0
-    chk.ob("O2", Site.of(f, ce[0]), ok, "content encrypted with the generated CEK")
-    ok = isinstance(ke[0].args[3], ast.Name) and isinstance(cek, ast.Name) and ke[0].args[3].id == cek.id and rd.single_def(cek.id, ke[0]) is d
-    chk.ob("O2", Site.of(f, ke[0]), ok, "the CEK that is wrapped is the CEK that encrypted")
-    wr = [n for n in body_nodes(f.node) if isinstance(n, ast.Call) and isinstance(n.func, ast.Attribute) and n.func.attr == "write_octet_string"]
-    ivd = rd.single_def(unparse(wr[0].args[0]), wr[0]) if len(wr) == 1 and isinstance(wr[0].args[0], ast.Name) else None
-    ok = ivd is not None and ivd.value is gen[0] and ivd.index == 1
-    chk.ob("O2", Site.of(f, wr[0] if wr else None, None if wr else "nonce"), ok, "the nonce written into the GCM parameters is the one generated with the CEK")
-    # kek / key identifier from key.new_kek()
-    nk = calls(f, "key.new_kek")
-    kd = rd.single_def("kek", ke[0])
-    ok = len(nk) == 1 and kd is not None and kd.value is nk[0] and kd.index == 0
-    chk.ob("O2", Site.of(f, ke[0]), ok, "wrapped with the KEK of new_kek()")
-    ki = kws.get("key_identifier")
-    d = rd.single_def(ki.id, bc[0]) if isinstance(ki, ast.Name) else None
-    ok = len(nk) == 1 and d is not None and d.value is nk[0] and d.index == 1
-    chk.ob("O2", Site.of(f, bc[0], "DPAPINGBlob stores new_kek()'s key identifier"), ok, "the identifier stored is the one that describes that KEK")
-    pdv = kws.get("protection_descriptor")
-    chk.ob("O2", Site.of(f, bc[0], "DPAPINGBlob stores the protection descriptor"), pdv is not None and unparse(pdv) == f.params[2], "the descriptor the SD was built from")
+    summ = Summary(f, ["blob", "key", "protection_descriptor"])
+    rets = summ.returning()
+    if not rets:
+        raise AnalysisError("_encrypt_blob: no returning path")
+    for ps in rets:
+        ce, ke, gen, bc, nk = ps.calls("content_encrypt"), ps.calls("cek_encrypt"), ps.calls("cek_generate"), ps.calls("DPAPINGBlob"), ps.calls("new_kek")
+        if not (len(ce) == len(ke) == len(gen) == len(bc) == 1):
+            raise AnalysisError("_encrypt_blob: call sites changed")
+        cet, ket, gent, bct = (t.cast(ast.Call, x[0].tree) for x in (ce, ke, gen, bc))
+        kws = args_of(repo, f, bct)
+        cea, kea = args_of(repo, f, cet), args_of(repo, f, ket)
+        K = ps.key
+        for what, used, stored in (
+            ("content algorithm", cea.get("algorithm"), kws.get("enc_content_algorithm")),
+            ("content parameters", cea.get("parameters"), kws.get("enc_content_parameters")),
+            ("CEK algorithm", kea.get("algorithm"), kws.get("enc_cek_algorithm")),
+            ("CEK parameters", kea.get("parameters"), kws.get("enc_cek_parameters")),
+        ):
+            ok = used is not None and stored is not None and K(used) == K(stored)
+            chk.ob("O2", Site.of(f, bc[0].node, f"DPAPINGBlob stores the {what} used"), ok, f"the {what} stored in the blob is the value used to encrypt" if ok else f"the {what} used for encryption ({ps.text(used)}) is not what the blob stores ({ps.text(stored) if stored is not None else 'missing'})")
+        for what, call, field in (("ciphertext", cet, "enc_content"), ("wrapped CEK", ket, "enc_cek")):
+            ok = kws.get(field) is not None and K(kws[field]) == K(call)
+            chk.ob("O2", Site.of(f, bc[0].node, f"DPAPINGBlob stores the {what}"), ok, f"{field} = result of the encryption" if ok else f"{field} is not the result of the corresponding encryption call")
+        ga = args_of(repo, f, gent)
+        ok = ga.get("algorithm") is not None and K(ga["algorithm"]) == K(kea.get("algorithm"))
+        chk.ob("O2", Site.of(f, gen[0].node), ok, "CEK generated for the algorithm that wraps it")
+        cek_key, iv_key = f"{K(gent)}[0]", f"{K(gent)}[1]"
+        ok = K(cea.get("cek")) == cek_key
+        chk.ob("O2", Site.of(f, ce[0].node), ok, "content encrypted with the generated CEK")
+        ok = K(kea.get("value")) == cek_key
+        chk.ob("O2", Site.of(f, ke[0].node), ok, "the CEK that is wrapped is the CEK that encrypted")
+        wr = ps.calls("write_octet_string")
+        ok = len(wr) == 1 and [K(a) for a in t.cast(ast.Call, wr[0].tree).args][:1] == [iv_key]
+        chk.ob("O2", Site.of(f, wr[0].node if wr else None, None if wr else "nonce"), ok, "the nonce written into the GCM parameters is the one generated with the CEK")
+        okn = len(nk) == 1 and ps.text(t.cast(ast.Attribute, t.cast(ast.Call, nk[0].tree).func).value) == "key"
+        ok = okn and K(kea.get("kek")) == f"{K(nk[0].tree)}[0]"
+        chk.ob("O2", Site.of(f, ke[0].node), ok, "wrapped with the KEK of key.new_kek()")
+        ok = okn and K(kws.get("key_identifier")) == f"{K(nk[0].tree)}[1]"
+        chk.ob("O2", Site.of(f, bc[0].node, "DPAPINGBlob stores new_kek()'s key identifier"), ok, "the identifier stored is the one that describes that KEK")
+        pdv = kws.get("protection_descriptor")
+        chk.ob("O2", Site.of(f, bc[0].node, "DPAPINGBlob stores the protection descriptor"), pdv is not None and ps.text(pdv) == "protection_descriptor", "the descriptor the SD was built from")
+        ok = ps.value is not None and K(ps.value) == f"{K(bct)}.pack()" or (isinstance(ps.value, ast.Call) and isinstance(ps.value.func, ast.Attribute) and ps.value.func.attr == "pack" and K(ps.value.func.value) == K(bct))
+        chk.ob("O2", Site.of(f, ps.exit_node, None if ps.exit_node is not None else "return"), bool(ok), "returns the packed blob")
     # protect API: SD for the key request and descriptor in the blob come from the same parsed descriptor
     for q in ("_client.ncrypt_protect_secret", "_client.async_ncrypt_protect_secret"):
         g = repo.func(q)
-        rdg = ReachingDefs(g)
-        eb = calls(g, "_encrypt_blob")
-        ok = len(eb) == 1 and [unparse(a) for a in eb[0].args] == ["data", "rk", "descriptor"]
-        chk.ob("O2", Site.of(g, eb[0] if eb else None, None if eb else "_encrypt_blob"), ok, "_encrypt_blob(data, rk, descriptor)")
-        if eb:
-            d1 = rdg.single_def("descriptor", eb[0])
-            d2 = rdg.single_def("sd", eb[0])
-            ok = d1 is not None and unparse(d1.value) == f"ProtectionDescriptor.parse({g.params[1]})" and d2 is not None and unparse(d2.value) == "descriptor.get_target_sd()"
-            chk.ob("O2", Site.of(g, eb[0]), ok, "key requested for the SD of the descriptor that is stored in the blob")
-        rets = [n for n in body_nodes(g.node) if isinstance(n, ast.Return)]
-        chk.ob("O2", Site.of(g, rets[0] if rets else None, None if rets else "return"), len(rets) == 1 and bool(eb) and rets[0].value is eb[0], "returns the emitted blob")
+        sg = Summary(g)  # public API: the parameter names are part of the interface
+        n = 0
+        for ps in sg.returning():
+            eb = ps.calls("_encrypt_blob")
+            if len(eb) != 1:
+                chk.ob("O2", Site.of(g, ps.exit_node, None if ps.exit_node is not None else "return"), False, "a returning path does not go through _encrypt_blob exactly once")
+                continue
+            n += 1
+            ea = args_of(repo, g, t.cast(ast.Call, eb[0].tree))
+            desc = "ProtectionDescriptor.parse(protection_descriptor)"
+            ok = ps.text(ea.get("blob")) == "data" and ps.text(ea.get("protection_descriptor")) == desc
+            chk.ob("O2", Site.of(g, eb[0].node), ok, "_encrypt_blob(data, <key>, descriptor parsed from the argument)" if ok else f"_encrypt_blob is given ({ps.text(ea.get('blob'))}, ..., {ps.text(ea.get('protection_descriptor'))})")
+            sds = [c for c in ps.calls("get_target_sd")]
+            ok = len(sds) >= 1 and all(ps.key(t.cast(ast.Attribute, t.cast(ast.Call, c.tree).func).value) == ps.key(ea.get("protection_descriptor")) for c in sds)
+            chk.ob("O2", Site.of(g, eb[0].node, "target SD of the stored descriptor"), ok, "key requested for the SD of the descriptor that is stored in the blob")
+            chk.ob("O2", Site.of(g, ps.exit_node, None if ps.exit_node is not None else "return"), ps.key(ps.value) == ps.key(eb[0].tree), "returns the emitted blob")
+        if n == 0:
+            raise AnalysisError(f"{q}: no path through _encrypt_blob")
 
 
 def key_position(repo: Repo, chk: Check) -> None:
